@@ -477,11 +477,6 @@ func runNetwork(t *testing.T, run *obs.Run, i int) {
 		return
 	}
 	rng := c.Rand()
-	t0 := time.Now()
-	lap := func(name string) {
-		run.Stat("wall_ms_"+name, int64(time.Since(t0)/time.Millisecond))
-		t0 = time.Now()
-	}
 	atomic.StoreInt32(&routetab.MaxTTL, int32(cf.maxTTL))
 	routetab.NeighborAlpha = int32(cf.alpha)
 	pool := identities(t, run)
@@ -494,7 +489,6 @@ func runNetwork(t *testing.T, run *obs.Run, i int) {
 		t.Fatalf("harness: build network: %v", err)
 	}
 	defer net.Close()
-	lap("nodes")
 	for _, e := range cf.edges {
 		if err := net.Link(e[0], e[1]); err != nil {
 			t.Fatalf("harness: link: %v", err)
@@ -514,7 +508,6 @@ func runNetwork(t *testing.T, run *obs.Run, i int) {
 	net.SetFaults(cf.dropP, cf.maxDelay)
 
 	findTimeout := 250 * time.Millisecond
-	lap("build")
 	pick := func(wantFar bool) (int, int) {
 		for try := 0; try < 50; try++ {
 			s, d := rng.Intn(cf.nodes), rng.Intn(cf.nodes)
@@ -548,7 +541,6 @@ func runNetwork(t *testing.T, run *obs.Run, i int) {
 		m.checkTables()
 	}
 
-	lap("sequential")
 	// phase 2: concurrent discoveries. The "a discovery for this target is running" marker of
 	// FindRoute is a process-global cache (one process = one node in production), so in this
 	// one-process network two different nodes never look for the same target at the same time;
@@ -592,7 +584,6 @@ func runNetwork(t *testing.T, run *obs.Run, i int) {
 		m.checkTables()
 	}
 
-	lap("concurrent")
 	// phase 3: relayed connections (sequential: relays may start nested discoveries)
 	net.SetFaults(0, cf.maxDelay)
 	restore := routetab.VerifSetFindTimeout(200 * time.Millisecond)
@@ -614,7 +605,6 @@ func runNetwork(t *testing.T, run *obs.Run, i int) {
 		m.checkTables()
 	}
 	restore()
-	lap("relay")
 	run.Stat("relay_deliveries_at_target", atomic.LoadInt64(&relayDelivered))
 
 	run.Stat("networks", 1)
